@@ -1,6 +1,8 @@
 """C18 - adapters translate graphs and functions faithfully.
 Implementation: golem.core.adapter.{adapter, nx_adapter, adapt_registry}.
 Model: coq/theories/Adapter/Adapter.v (agree_xxx / holds_xxx oracles of Part 5)."""
+import collections
+import collections.abc
 import functools
 import types
 
@@ -14,6 +16,7 @@ from golem.core.adapter.adapt_registry import AdaptRegistry, register_native
 from golem.core.adapter.adapter import DirectAdapter, IdentityAdapter
 from golem.core.adapter.nx_adapter import BaseNetworkxAdapter, DumbNetworkxAdapter
 from golem.core.optimisers.graph import OptGraph, OptNode
+from golem.core.optimisers.opt_history_objects.generation import Generation
 from golem.core.optimisers.opt_history_objects.individual import Individual
 
 REQ = ['Adapter.Adapter']
@@ -609,13 +612,45 @@ def graph_class(kind, obj):
     raise TypeError('unexpected graph class %r' % type(obj))
 
 
-SCALARS = [0, 5, -1, 2.5, '', 'abc', 'x', b'', {'k': 1}, {1, 2}, True]
+SCALARS = [0, 5, -1, 2.5, '', 'abc', 'x', b'', {'k': 1}, {1, 2}, True, range(3), range(0), b'ab', 'tok1']
+
+
+class MySeq(collections.abc.Sequence):
+    """a user-defined Sequence (neither list nor tuple nor UserList)"""
+
+    def __init__(self, items):
+        self._items = list(items)
+
+    def __getitem__(self, i):
+        return self._items[i]
+
+    def __len__(self):
+        return len(self._items)
+
+    def __repr__(self):
+        return 'MySeq(%r)' % (self._items,)
+
+
+# the other Sequence kinds; the number is the `kind` of VUserSeq
+USEQ_KINDS = {'userlist': 1, 'generation': 2, 'deque': 3, 'myseq': 4}
+
+
+def build_useq(name, items):
+    if name == 'generation' and all(isinstance(x, Individual) for x in items):
+        return Generation(items, generation_num=3, label='final_choices')
+    if name == 'deque':
+        return collections.deque(items)
+    if name == 'myseq':
+        return MySeq(items)
+    return collections.UserList(items)
 
 
 def build_val(kind, d):
     """description -> python object.  d: ['g', cls, tok] | ['i', cls, tok, m] | ['seq', [..]] | ['tup', [..]] |
-    ['none'] | ['s', index]"""
+    ['useq', kindname, [..]] | ['none'] | ['s', index]"""
     t = d[0]
+    if t == 'useq':
+        return build_useq(d[1], [build_val(kind, x) for x in d[2]])
     if t == 'g':
         return make_graph(kind, d[1], d[2])
     if t == 'i':
@@ -641,6 +676,10 @@ def val_coq(kind, v):
         return '(VSeq %s)' % c_list([val_coq(kind, x) for x in v], 'tval')
     if type(v) is tuple:
         return '(VTuple %s)' % c_list([val_coq(kind, x) for x in v], 'tval')
+    for cls, name in ((Generation, 'generation'), (collections.UserList, 'userlist'), (collections.deque, 'deque'),
+                      (MySeq, 'myseq')):
+        if type(v) is cls:
+            return '(VUserSeq %s %s)' % (c_nat(USEQ_KINDS[name]), c_list([val_coq(kind, x) for x in v], 'tval'))
     return '(VScalar %s)' % c_str(type(v).__name__ + ':' + repr(v))
 
 
@@ -658,18 +697,27 @@ def gen_val_desc(r, classes, top=True):
         return ['none']
     if c < 0.68 or not top:
         return ['s', r.randrange(len(SCALARS))]
-    kind = r.choice(['seq', 'tup'])
+    kind = r.choice(['seq', 'tup', 'useq'])
     n = r.choice([0, 1, 2, 3])
     c2 = r.random()
+    inds = False
     if c2 < 0.4:
         cls = r.choice(classes)
         items = [['g', cls, r.randint(0, 9)] for _ in range(n)]
     elif c2 < 0.55:
         items = [['i', r.choice(classes), r.randint(0, 9), r.randint(0, 3)] for _ in range(n)]
+        inds = True
     elif c2 < 0.8:
         items = [['s', r.randrange(len(SCALARS))] for _ in range(n)]
-    else:  # heterogeneous
+    else:  # heterogeneous, possibly with a nested sequence of graphs
         items = [gen_val_desc(r, classes, top=False) for _ in range(n)]
+        if n and r.random() < 0.4:
+            inner = [['g', r.choice(classes), r.randint(0, 9)] for _ in range(r.choice([1, 2]))]
+            items[r.randrange(n)] = r.choice([['seq', inner], ['tup', inner], ['useq', 'deque', inner]])
+    if kind == 'useq':
+        name = r.choice(['userlist', 'deque', 'myseq', 'generation']) if (inds or n == 0) else \
+            r.choice(['userlist', 'deque', 'myseq'])
+        return ['useq', name, items]
     return [kind, items]
 
 
@@ -1374,7 +1422,8 @@ def run(ctx):
         txt = repr(desc)
         ctx.count('calls', key=desc, nontrivial=("'g'" in txt or "'i'" in txt), kind=desc['kind'],
                   wrapper='adapt_func' if desc['adapting'] else 'restore_func', raised=facts['raised'],
-                  n_args=len(desc['args']), n_kwargs=len(desc['kwargs']), result=desc['raw'][0])
+                  n_args=len(desc['args']), n_kwargs=len(desc['kwargs']), result=desc['raw'][0],
+                  other_sequence=("'useq'" in txt))
         _flag(ctx, 'calls', desc, rr, ['wrapped call differs from the model',
                                        'wrapped function did not receive converted graphs / untouched other arguments, or '
                                        'its result was not converted back'], 1)
